@@ -208,7 +208,7 @@ def lines_for_bytes(p, nbytes, sparse):
 
 
 def gen_C01(rng, tier):
-    out = []
+    out = all_bytes_battery(["read_all s=U e=U"])
     # directed: sparse series spanning several read buffers, so that consecutive
     # 16 KiB boundaries split sections (every payload class)
     for p in ([0, 1, 2, 3, 4, 8] if tier == "quick" else [0, 1, 2, 3, 4, 5, 8, 16, 200]):
@@ -336,8 +336,17 @@ def gen_C12(rng, tier):
         h.new()
         for a in acc:
             h.op(a)
+        # refused appends on an empty series must not show in the accessors
+        h.push(5, rng, pl=bytes(h.p + 1))
+        for a in acc:
+            h.op(a)
         for _ in range(rng.randrange(1, 5)):
             rng.choice([h.seg_dense, h.seg_edge, h.seg_sparse, h.seg_gap])(rng)
+            for a in acc:
+                h.op(a)
+            # refused appends (wrong length with a newer timestamp, stale timestamp) change no accessor
+            h.push(h.last() + 500, rng, pl=bytes(h.p + 1))
+            h.push(h.last(), rng)
             for a in acc:
                 h.op(a)
             if rng.random() < 0.4:
@@ -357,8 +366,28 @@ def gen_C12(rng, tier):
     return out
 
 
-def gen_C15(rng, tier):
+def all_bytes_battery(ops_after):
+    """timestamps whose eight bytes are all different and non-zero, for every section layout:
+    a byte-order / slice slip in one layout shows up in the file bytes and in what is read back"""
     out = []
+    for p in [0, 1, 2, 3, 4, 5, 8]:
+        h = Hist(p)
+        h.new()
+        for t in [0x0102030405060708, 0x0102030405060709, 0x1112131415161718, 0x8182838485868788,
+                  0xF1F2F3F4F5F6F7F8, U64 - 70000, U64]:
+            if marker_free(p, [t]):
+                h.push(t, pl=bytes((0xA0 + i) % 256 for i in range(p)))
+        for o in ops_after:
+            h.op(o)
+        h.reopen()
+        for o in ops_after:
+            h.op(o)
+        out.append((f"allbytes-p{p}", h.script()))
+    return out
+
+
+def gen_C15(rng, tier):
+    out = all_bytes_battery(["files", "read_all s=U e=U"])
     for h0 in _histories(rng, tier, PAYLOADS_SMALL + [16]):
         h = Hist(h0.p, hdr=h0.hdr)
         h.new()
@@ -583,6 +612,40 @@ def gen_C05(rng, tier):
                 h.op("files")
         if marker_free(p, h.ts):
             out.append((f"cuts-p{p}", h.script()))
+    # structural cut points: at and around every line boundary of the last two section headers,
+    # for every section layout and for payloads longer than a timestamp
+    for p in [0, 1, 2, 3, 4, 5, 8, 9, 12, 40]:
+        h = Hist(p)
+        h.new()
+        t = 1000
+        for k in range(3):
+            h.pushrun(t, 3, 2, 77 + k)
+            t = h.last() + MAXD + 5
+        if not marker_free(p, h.ts):
+            continue
+        H = header_len(p, 0)
+        h.op("close")
+        h.op("save 0")
+        cuts = set()
+        for (_, so) in h.sections[-2:]:
+            for k in range(0, lpm(p) + 2):
+                for dlt in (-1, 0, 1):
+                    c = so + k * h.ls + dlt
+                    if 0 <= c <= h.off:
+                        cuts.add(H + c)
+        for c in sorted(cuts):
+            for ix in ([None, "rm index"] if tier == "quick" else [None, "rm index", "cut index 20", "cut index 36"]):
+                h.op("restore 0")
+                h.op(f"cut data {c}")
+                if ix:
+                    h.op(ix)
+                h.open()
+                h.op("read_all s=U e=U")
+                h.op("len")
+                h.op("range")
+                h.op("close")
+                h.op("files")
+        out.append((f"structcut-p{p}", h.script()))
     # crash-repair-append chains
     for i in range(4 if tier == "quick" else 30):
         p = rng.choice(pls)
